@@ -209,13 +209,15 @@ C05_Update(B, T, v, fare) ==
   IN
   IF a \in Charging /\ s \in DOMAIN B.st /\ p \in DOMAIN B.st[s].pl THEN
        LET price == B.st[s].pl[p].price
-           dDisp == T.st[s].disp[k] - B.st[s].disp[k]
+           \* a station that keeps no meter for this energy type has booked nothing
+           Meter(St) == IF k \in DOMAIN St.st[s].disp THEN St.st[s].disp[k] ELSE 0
+           dDisp == Meter(T) - Meter(B)
            dBal  == T.st[s].bal - B.st[s].bal IN
           (IF Abs(dDisp - dE) > 2 THEN {V("C05", "energy_both_sides", a, v)} ELSE {})
        \cup (IF Abs(dBal - pay) > 2 THEN {V("C05", "payment_received_in_full", a, v)} ELSE {})
        \cup (IF Abs(pay - ((price * dE) \div 1000)) > 3 + (price \div 500) THEN {V("C05", "priced_at_tariff", a, v)} ELSE {})
        \cup (IF StationsTouched(B, T) \ {s} # {} THEN {V("C05", "only_the_station_used", a, v)} ELSE {})
-       \cup (IF \E kk \in DOMAIN T.st[s].disp \ {k} : T.st[s].disp[kk] # B.st[s].disp[kk]
+       \cup (IF \E kk \in (DOMAIN T.st[s].disp \cap DOMAIN B.st[s].disp) \ {k} : T.st[s].disp[kk] # B.st[s].disp[kk]
              THEN {V("C05", "energy_type_booked", a, v)} ELSE {})
   ELSE
           (IF Abs(dE) > 0 \/ Abs(pay) > 1 THEN {V("C05", "no_ledger_change_without_charging", a, v)} ELSE {})
